@@ -35,8 +35,9 @@ impl Stack {
         }
     }
 
-    pub(super) fn is_empty(&self) -> bool {
-        self.entries.is_empty()
+    /// Removes all entries.
+    pub(super) fn clear(&mut self) {
+        self.entries.clear();
     }
 
     pub(super) fn push(&mut self, coinductive_goal: bool) -> StackDepth {
